@@ -288,8 +288,16 @@ func (c *channelInstance) verifyAndDecrypt(m *MessageChunk, r []byte) ([]byte, e
 		b = append(b[:headerLength], p...)
 	}
 
-	signature := b[len(b)-c.algo.RemoteSignatureLength():]
-	messageToVerify := b[:len(b)-c.algo.RemoteSignatureLength()]
+	// The chunk comes from the network: it can be shorter than a signature
+	// and its padding size can point in front of the body. Check the lengths
+	// before slicing instead of panicking.
+	signatureLength := c.algo.RemoteSignatureLength()
+	if len(b) < headerLength+signatureLength {
+		return nil, ua.StatusBadSecurityChecksFailed
+	}
+
+	signature := b[len(b)-signatureLength:]
+	messageToVerify := b[:len(b)-signatureLength]
 
 	if err := c.algo.VerifySignature(messageToVerify, signature); err != nil {
 		return nil, ua.StatusBadSecurityChecksFailed
@@ -297,6 +305,13 @@ func (c *channelInstance) verifyAndDecrypt(m *MessageChunk, r []byte) ([]byte, e
 
 	var paddingLength int
 	if c.sc.cfg.SecurityMode == ua.MessageSecurityModeSignAndEncrypt || isAsymmetric {
+		paddingSizeBytes := 1
+		if c.algo.SignatureLength() > 256 {
+			paddingSizeBytes = 2
+		}
+		if len(messageToVerify) < headerLength+paddingSizeBytes {
+			return nil, ua.StatusBadSecurityChecksFailed
+		}
 		paddingLength = int(messageToVerify[len(messageToVerify)-1])
 		if c.algo.SignatureLength() > 256 {
 			paddingLength <<= 8
@@ -304,6 +319,10 @@ func (c *channelInstance) verifyAndDecrypt(m *MessageChunk, r []byte) ([]byte, e
 			paddingLength += 1
 		}
 		paddingLength += 1
+	}
+
+	if len(messageToVerify)-paddingLength < headerLength {
+		return nil, ua.StatusBadSecurityChecksFailed
 	}
 
 	b = messageToVerify[headerLength : len(messageToVerify)-paddingLength]
